@@ -532,46 +532,74 @@ theorem advanceTotal_neg (c : ℕ) (advs : List Advance) :
     rw [neg_zero_amt, ← h] at this
     exact this
 
-theorem rawTotals_neg (d : Doc) (p : Pre) (tx : TaxTotal) (hr : d.rounding = none) :
+theorem rawTotals_neg (d : Doc) (p : Pre) (tx : TaxTotal) :
     rawTotals exactOps (invertDoc d) (negPre p) (negTax tx) = negTotals (rawTotals exactOps d p tx) := by
   unfold rawTotals
   have hi : (invertDoc d).includes = d.includes := rfl
-  have hro : (invertDoc d).rounding = none := rfl
+  have hro : (invertDoc d).rounding = d.rounding.map neg := rfl
   have hc : (invertDoc d).c = d.c := rfl
   have hpay : (invertDoc d).hasPayment = d.hasPayment := rfl
   have hadv : (invertDoc d).advances = d.advances.map invertAdvance := rfl
   have ht2 : (negPre p).total2 = neg p.total2 := rfl
   have hcats : (negTax tx).cats.isEmpty = tx.cats.isEmpty := by simp [negTax]
-  rw [hi, hro, hc, hpay, hadv, ht2, hcats, hr, taxIncluded_neg, precise_neg]
+  rw [hi, hro, hc, hpay, hadv, ht2, hcats, taxIncluded_neg, precise_neg]
   have hmap : ∀ twt : Amount, (d.advances.map invertAdvance).map (calcAdvance exactOps d.c (neg twt)) =
       (d.advances.map (calcAdvance exactOps d.c twt)).map invertAdvance := by
     intro twt
     simp [List.map_map, Function.comp_def, calcAdvance_neg]
-  cases taxIncluded d.includes tx with
+  cases d.rounding with
   | none =>
-    simp only [Option.map_none, add_neg, hmap, advanceTotal_neg]
-    simp only [negTotals, negPre, Totals.mk.injEq, true_and, Option.map_none, and_true]
-    cases d.hasPayment
-    · simp
-      split <;> simp
-    · simp only [if_true]
-      refine ⟨?_, trivial, ?_⟩
-      · split <;> simp
-      · cases advanceTotal exactOps d.c (d.advances.map (calcAdvance exactOps d.c (add exactOps p.total2 tx.precise))) with
-        | none => rfl
-        | some x => simp [sub_neg]
-  | some ti =>
-    simp only [Option.map_some, sub_neg, add_neg, hmap, advanceTotal_neg]
-    simp only [negTotals, negPre, Totals.mk.injEq, true_and, Option.map_none, Option.map_some, and_true]
-    cases d.hasPayment
-    · simp
-      split <;> simp
-    · simp only [if_true]
-      refine ⟨?_, trivial, ?_⟩
-      · split <;> simp
-      · cases advanceTotal exactOps d.c (d.advances.map (calcAdvance exactOps d.c (add exactOps (sub exactOps p.total2 ti) tx.precise))) with
-        | none => rfl
-        | some x => simp [sub_neg]
+    cases taxIncluded d.includes tx with
+    | none =>
+      simp only [Option.map_none, add_neg, hmap, advanceTotal_neg]
+      simp only [negTotals, negPre, Totals.mk.injEq, true_and, Option.map_none, and_true]
+      cases d.hasPayment
+      · simp
+        split <;> simp
+      · simp only [if_true]
+        refine ⟨?_, trivial, ?_⟩
+        · split <;> simp
+        · cases advanceTotal exactOps d.c (d.advances.map (calcAdvance exactOps d.c (add exactOps p.total2 tx.precise))) with
+          | none => rfl
+          | some x => simp [sub_neg]
+    | some ti =>
+      simp only [Option.map_some, Option.map_none, sub_neg, add_neg, hmap, advanceTotal_neg]
+      simp only [negTotals, negPre, Totals.mk.injEq, true_and, Option.map_none, Option.map_some, and_true]
+      cases d.hasPayment
+      · simp
+        split <;> simp
+      · simp only [if_true]
+        refine ⟨?_, trivial, ?_⟩
+        · split <;> simp
+        · cases advanceTotal exactOps d.c (d.advances.map (calcAdvance exactOps d.c (add exactOps (sub exactOps p.total2 ti) tx.precise))) with
+          | none => rfl
+          | some x => simp [sub_neg]
+  | some r =>
+    cases taxIncluded d.includes tx with
+    | none =>
+      simp only [Option.map_none, Option.map_some, add_neg, hmap, advanceTotal_neg]
+      simp only [negTotals, negPre, Totals.mk.injEq, true_and, Option.map_none, Option.map_some, and_true]
+      cases d.hasPayment
+      · simp
+        split <;> simp
+      · simp only [if_true]
+        refine ⟨?_, trivial, ?_⟩
+        · split <;> simp
+        · cases advanceTotal exactOps d.c (d.advances.map (calcAdvance exactOps d.c (add exactOps p.total2 tx.precise))) with
+          | none => rfl
+          | some x => simp [sub_neg]
+    | some ti =>
+      simp only [Option.map_some, sub_neg, add_neg, hmap, advanceTotal_neg]
+      simp only [negTotals, negPre, Totals.mk.injEq, true_and, Option.map_none, Option.map_some, and_true]
+      cases d.hasPayment
+      · simp
+        split <;> simp
+      · simp only [if_true]
+        refine ⟨?_, trivial, ?_⟩
+        · split <;> simp
+        · cases advanceTotal exactOps d.c (d.advances.map (calcAdvance exactOps d.c (add exactOps (sub exactOps p.total2 ti) tx.precise))) with
+          | none => rfl
+          | some x => simp [sub_neg]
 
 theorem roundAdj_neg (e : ℕ) (x : LineAdj) : roundAdj exactOps e (invertAdj x) = invertAdj (roundAdj exactOps e x) := by
   simp [roundAdj, invertAdj, down_neg]
@@ -613,11 +641,11 @@ theorem roundTotals_neg (c : ℕ) (t : Totals) :
   rw [hf]
   exact ⟨rfl, rfl, rfl, rfl, rfl⟩
 
-theorem finish_neg (d : Doc) (p : Pre) (tx : TaxTotal) (hr : d.rounding = none) :
+theorem finish_neg (d : Doc) (p : Pre) (tx : TaxTotal) :
     (finish exactOps (invertDoc d) (negPre p) (negTax tx)).dropDues =
       (negOut (finish exactOps d p tx)).dropDues := by
   unfold finish
-  simp only [rawTotals_neg d p tx hr]
+  simp only [rawTotals_neg d p tx]
   have hc : (invertDoc d).c = d.c := rfl
   have hpay : (invertDoc d).hasPayment = d.hasPayment := rfl
   have hadv : (invertDoc d).advances = d.advances.map invertAdvance := rfl
@@ -636,12 +664,12 @@ theorem finish_neg (d : Doc) (p : Pre) (tx : TaxTotal) (hr : d.rounding = none) 
       simp only [Function.comp, calcAdvance_neg, exact_rescale]
       simp [invertAdvance, rescaleX_neg]
 
-/-- **Whole-document inversion.** For a document of input lines (nothing calculated stored on them; breakdowns allowed) and no
-externally supplied rounding, recalculating the inverted document gives exactly the negated result:
+/-- **Whole-document inversion.** For a document of input lines (nothing calculated stored on them; breakdowns allowed), with or
+without an externally supplied rounding amount (inverted with the rest), recalculating the inverted document gives exactly the negated result:
 every line, discount, charge, advance, tax-summary group and total changes sign and nothing else
 changes.  Payment due dates are excluded from the comparison: a due date with a fixed amount keeps
 its sign in the code as well. -/
-theorem calculate_invert (d : Doc) (h : ∀ l ∈ d.lines, PlainLine l) (hr : d.rounding = none) :
+theorem calculate_invert (d : Doc) (h : ∀ l ∈ d.lines, PlainLine l) :
     (calculate exactOps (invertDoc d)).map Out.dropDues =
       ((calculate exactOps d).map negOut).map Out.dropDues := by
   unfold calculate
@@ -664,7 +692,7 @@ theorem calculate_invert (d : Doc) (h : ∀ l ∈ d.lines, PlainLine l) (hr : d.
       | ok tx =>
         simp only [Except.map]
         congr 1
-        exact finish_neg d p tx hr
+        exact finish_neg d p tx
     · simp only [if_true]
       congr 1
 
